@@ -209,6 +209,32 @@ def _bls_consts(fx, fe):
             vals = {k: (fx.consts.get(k) or {}).get('v') for k in x}
             if all(isinstance(v, int) for v in vals.values()):
                 x = [max(x, key=lambda k: vals[k])]
+    if not x:
+        # the final exponentiation may use constants derived from x (arrays [x], [x >> 1]) only; x itself is then the
+        # u64 constant of the Miller loop / line schedule (the exponent actually used is decided by C12's EXP rule)
+        x = sorted(k for k, ty in b.items() if ty == 'u64')
+    if not x:
+        # ... or constants nested in the function ([x], [x >> 1]): x is the crate's u64 constant whose value is the
+        # largest element of those
+        nested = [c_ for k_, c_ in fx.consts.items() if k_.startswith(fe + '::')]
+        vals_ = []
+        for c_ in nested:
+            v_ = c_.get('v')
+            if isinstance(v_, int):
+                vals_.append(v_)
+            elif isinstance(v_, list) and v_ and all(isinstance(e_, int) for e_ in v_):
+                vals_.extend(v_)
+            elif isinstance(v_, dict) and isinstance(v_.get('arr'), list) and all(isinstance(e_, int) for e_ in v_['arr']):
+                vals_.extend(v_['arr'])
+        if vals_:
+            top_ = max(vals_)
+            x = sorted(k_ for k_, c_ in fx.consts.items() if c_.get('ty') == 'u64' and c_.get('v') == top_ and not k_.startswith(fe + '::'))
+        if len(x) > 1:
+            vals = {k: (fx.consts.get(k) or {}).get('v') for k in x}
+            if all(isinstance(v, int) for v in vals.values()):
+                x = [max(x, key=lambda k: vals[k])]
     if len(neg) != 1:
         neg = sorted(k for k, ty in a.items() if ty == 'bool')
+    if len(neg) != 1:
+        neg = sorted(k for k, ty in b.items() if ty == 'bool')
     return (x[0] if len(x) == 1 else None), (neg[0] if len(neg) == 1 else None)
